@@ -635,8 +635,10 @@ Definition accept_obs (prefix : list N) (idem : bool) (conns : list (list tev)) 
   results_accept prefix idem conns 1 rs.
 
 (* ---------------------------------------------------------------- the pool, as seen at the mock *)
-(* Pool-level events of one node in the mock's order: a pool connection finished its handshake, a request
-   frame arrived on a connection, a connection broke (cut by the mock, stalled, or closed by the client). *)
+(* Pool-level events of one node in the order the mock logged them: the STARTUP frame of a pool connection
+   arrived (the connection is about to enter the pool), a request frame arrived on a connection, a
+   handshaken connection was closed (cut by the mock, or closed by the client -- a stall becomes a break
+   only when the client closes after its keepalive timeout). *)
 Inductive pev := EvAdd (c : N) | EvGet (c : N) | EvBreak (c : N).
 
 (* the schedule of the pool machine such a trace stands for: the refiller opens a replacement only after it
